@@ -119,6 +119,8 @@ func (v *Version) String() string {
 }
 
 // Compare compares this version with another PyPI version according to PEP 440
+// The order within one release is: .devN of the bare release < aN < bN < rcN < final <
+// .postN; a .devN of any phase sorts immediately before that phase.
 func (v *Version) Compare(other *Version) int {
 	if v.epoch != other.epoch {
 		return compareInt(v.epoch, other.epoch)
@@ -127,6 +129,17 @@ func (v *Version) Compare(other *Version) int {
 	releaseComparison := compareReleaseVersions(v.release, other.release)
 	if releaseComparison != 0 {
 		return releaseComparison
+	}
+
+	// A development release of the bare release (no pre- and no post-release segment)
+	// sorts before every pre-release of that release
+	vDevOnly := v.prerelease == "" && v.postrelease == -1 && v.dev != -1
+	otherDevOnly := other.prerelease == "" && other.postrelease == -1 && other.dev != -1
+	if vDevOnly != otherDevOnly {
+		if vDevOnly {
+			return -1
+		}
+		return 1
 	}
 
 	preComparison := comparePrereleases(v.prerelease, v.preNumber, other.prerelease, other.preNumber)
